@@ -1243,8 +1243,20 @@ func symLike(name string, like Val) Val {
 		return A(name)
 	case *Agg:
 		out := &Agg{T: x.T}
+		var st *types.Struct
+		isArr := false
+		if x.T != nil {
+			st, _ = x.T.Underlying().(*types.Struct)
+			_, isArr = x.T.Underlying().(*types.Array)
+		}
 		for i, e := range x.Elems {
-			out.Elems = append(out.Elems, symLike(fmt.Sprintf("%s.%d", name, i), e))
+			n := fmt.Sprintf("%s.%d", name, i)
+			if st != nil && i < st.NumFields() {
+				n = name + "." + st.Field(i).Name()
+			} else if isArr {
+				n = fmt.Sprintf("%s[%d]", name, i)
+			}
+			out.Elems = append(out.Elems, symLike(n, e))
 		}
 		return out
 	case *Sym:
